@@ -32,6 +32,8 @@ func init() {
 			fmt.Println("codec optional fields", ruleGNILCodec(c, r, sc))
 		}
 		fmt.Println("size~enc", ruleSizeEncodeConditions(c, r, map[string]bool{"mp4": true}))
+		fmt.Println("plural", rulePluralSibling(c, r, nil))
+		ruleStartPosRelative(c, r)
 		fmt.Println("rawfield", ruleReducedNotRaw(c, r, nil))
 		fmt.Println("sizelast", ruleSizeAfterLastRead(c, r, nil))
 		ruleConfRecProfileAlways(c, r)
@@ -2667,4 +2669,131 @@ func ruleWriterStoresBytes(c *Ctx, r *Report) int {
 		}
 	}
 	return n
+}
+
+// ---- S-PLURAL: the slice variant of an Add method maintains what the single variant maintains --------------------
+
+// rulePluralSibling (S-PLURAL): where a type has a method M taking one element and a method Ms taking a slice of the
+// same element type (TrunBox.AddSample / AddSamples), every receiver field M stores (directly or through methods on
+// the receiver) is stored by Ms as well: a flag or counter that only the single variant keeps up to date is wrong for
+// everything added through the slice variant. Returns the number of pairs.
+func rulePluralSibling(c *Ctx, r *Report, scope func(*ssa.Function) bool) int {
+	n := 0
+	byType := map[string]map[string]*ssa.Function{}
+	for _, f := range libFuncs(c, scope) {
+		if f.Signature.Recv() == nil || f.Parent() != nil {
+			continue
+		}
+		tn := f.Pkg.Pkg.Name() + "." + typeName(f.Signature.Recv().Type())
+		if byType[tn] == nil {
+			byType[tn] = map[string]*ssa.Function{}
+		}
+		byType[tn][f.Name()] = f
+	}
+	var names []string
+	for tn := range byType {
+		names = append(names, tn)
+	}
+	sort.Strings(names)
+	for _, tn := range names {
+		var ms []string
+		for m := range byType[tn] {
+			ms = append(ms, m)
+		}
+		sort.Strings(ms)
+		for _, m := range ms {
+			one, many := byType[tn][m], byType[tn][m+"s"]
+			if many == nil || len(one.Params) != 2 || len(many.Params) != 2 {
+				continue
+			}
+			sl, ok := many.Params[1].Type().Underlying().(*types.Slice)
+			if !ok || !types.Identical(sl.Elem(), one.Params[1].Type()) {
+				continue
+			}
+			n++
+			key := tn + "." + m + "~" + m + "s"
+			a := recvFieldStores(one, 0, map[*ssa.Function]bool{})
+			b := recvFieldStores(many, 0, map[*ssa.Function]bool{})
+			var missing []string
+			for fld := range a {
+				if _, ok := b[fld]; !ok {
+					missing = append(missing, fld)
+				}
+			}
+			sort.Strings(missing)
+			if len(missing) > 0 {
+				r.Bad("S-PLURAL", key, c.Pos(many.Pos()), fmt.Sprintf("%s stores %s of the receiver, %ss does not: what the single variant keeps up to date is stale for elements added through the slice variant", m, strings.Join(missing, ", "), m))
+			} else {
+				r.OK("S-PLURAL", key, c.Pos(many.Pos()), "the slice variant stores every receiver field the single variant stores")
+			}
+		}
+	}
+	return n
+}
+
+// ---- O-POS (relative): start positions of DecodeFileSR are relative to where the reader stood at entry -------------
+
+// ruleStartPosRelative (O-POS): the start position DecodeFileSR records for the next box is a difference whose
+// subtrahend is the reader position taken before the box loop: a file decoded from a reader that is not at position 0
+// (embedded after a prefix) gets positions relative to its own start, as DecodeFile gives.
+func ruleStartPosRelative(c *Ctx, r *Report) {
+	f := c.ssaFunc(r, "O-POS", "mp4", "DecodeFileSR")
+	if f == nil {
+		return
+	}
+	key := "mp4.DecodeFileSR:start-position-relative-to-entry"
+	inLoop := map[*ssa.BasicBlock]bool{}
+	for _, l := range naturalLoops(f) {
+		for b := range l.blocks {
+			inLoop[b] = true
+		}
+	}
+	isGetPos := func(v ssa.Value) *ssa.Call {
+		for {
+			if cv, ok := v.(*ssa.Convert); ok {
+				v = cv.X
+				continue
+			}
+			break
+		}
+		if call, ok := v.(*ssa.Call); ok && call.Call.IsInvoke() && call.Call.Method.Name() == "GetPos" {
+			return call
+		}
+		return nil
+	}
+	found, ok := 0, 0
+	for _, b := range f.Blocks {
+		if !inLoop[b] {
+			continue
+		}
+		for _, ins := range b.Instrs {
+			call := isGetPos(valueOf(ins))
+			if call == nil || call.Referrers() == nil {
+				continue
+			}
+			found++
+			for _, ref := range *call.Referrers() {
+				if bo, isBo := ref.(*ssa.BinOp); isBo && bo.Op == token.SUB && bo.X == ssa.Value(call) {
+					if base := isGetPos(bo.Y); base != nil && !inLoop[base.Block()] {
+						ok++
+					}
+				}
+			}
+		}
+	}
+	switch {
+	case found == 0:
+		r.Undecided("O-POS", key, c.Pos(f.Pos()), "no reader position taken inside the box loop")
+	case ok < found:
+		r.Bad("O-POS", key, c.Pos(f.Pos()), "a reader position taken inside the box loop is used without subtracting the position the reader had at entry: for a reader that does not start at 0 every start position after the first box is shifted by the prefix")
+	default:
+		r.OK("O-POS", key, c.Pos(f.Pos()), "the reader position inside the loop is taken relative to the position at entry")
+	}
+}
+
+func valueOf(ins ssa.Instruction) ssa.Value {
+	if v, ok := ins.(ssa.Value); ok {
+		return v
+	}
+	return nil
 }
